@@ -2,11 +2,12 @@
     Model: Graph/Edit.v (add_node / add_edge / remove_node / update_node (become) /
     parameter_names / copy over several live models).  Proofs: Proofs/C14_Edit.v. *)
 From Coq Require Import List String ZArith Arith Bool Sorting.Sorted.
-From Elfi Require Import Graph.Net Graph.Edit Base.StrOrder Proofs.C03_Exec Proofs.C14_Edit Proofs.C14_Become.
+From Elfi Require Import Graph.Net Graph.Edit Base.StrOrder Proofs.C03_Exec Proofs.C14_Edit Proofs.C14_Become Proofs.C14_Copy.
 Import ListNotations.
 
 (** Along every edit script over any number of live models (creation with parents, add_edge,
-    remove, become, parameter flags, observed data, copy, save/load) every model stays
+    remove, become, parameter flags, observed data, in-place writes to a node state through a
+    reference ([ESetFlag]: [node.uses_meta = b], [get_state(n)['attr_dict'][key] = b]), copy, save/load) every model stays
     structurally consistent: node names distinct, edges between existing nodes, observed data
     only for existing nodes.  The guards are decidable and say: observed data is set for an
     existing node; a become leaves the replaced node in place. *)
@@ -165,6 +166,63 @@ Theorem C14_set_parameter_names :
 Proof. exact set_parameter_names_spec. Qed.
 Print Assumptions C14_set_parameter_names.
 
+(** In-place writes to a node state ([model[n].uses_meta = b], [model.get_state(n)['attr_dict'][key] = b]):
+    exactly the named flag of exactly the named node of that model changes; edges and observed data stay. *)
+Theorem C14_state_write :
+  forall m n f b k,
+    lookup k (s_nodes (write_flag m n f b))
+    = (if String.eqb k n then option_map (fun st => set_flag st f b) (lookup k (s_nodes m)) else lookup k (s_nodes m))
+    /\ s_edges (write_flag m n f b) = s_edges m /\ s_observed (write_flag m n f b) = s_observed m.
+Proof. exact write_flag_spec. Qed.
+Print Assumptions C14_state_write.
+
+Theorem C14_state_write_flag :
+  forall st f b,
+    s_output (set_flag st f b) = s_output st /\ s_has_op (set_flag st f b) = s_has_op st
+    /\ s_stochastic (set_flag st f b) = s_stochastic st /\ s_observable (set_flag st f b) = s_observable st
+    /\ s_opid (set_flag st f b) = s_opid st
+    /\ s_uses_meta (set_flag st f b) = (match f with FUsesMeta => b | _ => s_uses_meta st end)
+    /\ s_uses_batch_size (set_flag st f b) = (match f with FUsesBatchSize => b | _ => s_uses_batch_size st end)
+    /\ s_uses_observed (set_flag st f b) = (match f with FUsesObserved => b | _ => s_uses_observed st end)
+    /\ s_parameter (set_flag st f b) = (match f with FParameter => b | _ => s_parameter st end).
+Proof. exact set_flag_spec. Qed.
+Print Assumptions C14_state_write_flag.
+
+(** Independence of the live models.  One operation changes only the model it is addressed to
+    (a copy / save+load changes none and appends the value of its source) ... *)
+Theorem C14_step_frame :
+  forall ms o ms' j, step ms o = Ok ms' -> writes_to o j = false -> j < List.length ms ->
+    nth_error ms' j = nth_error ms j /\ List.length ms <= List.length ms'.
+Proof. exact step_frame. Qed.
+Print Assumptions C14_step_frame.
+
+Theorem C14_copy_equals_source :
+  forall ms o ms', step ms o = Ok ms' -> (exists h, o = ECopy h \/ o = ESaveLoad h) ->
+    exists m, nth_error ms (handle_of o) = Some m /\ ms' = ms ++ [m].
+Proof. exact step_copy. Qed.
+Print Assumptions C14_copy_equals_source.
+
+(** ... so along ANY script a live model that no operation writes to keeps its value ... *)
+Theorem C14_run_frame :
+  forall ops ms ms' j, run ms ops = Ok ms' -> j < List.length ms ->
+    forallb (fun o => negb (writes_to o j)) ops = true -> nth_error ms' j = nth_error ms j.
+Proof. exact run_frame. Qed.
+Print Assumptions C14_run_frame.
+
+(** ... and a copy (or a reloaded model) and its original are independent: after the copy, any
+    script that does not write to the copy leaves it with the value the original had at copy time,
+    whatever it does to the original (node creation, edges, removal, become, parameter flags,
+    observed data, in-place state writes, further copies), and any script that does not write to
+    the original leaves the original unchanged whatever it does to the copy. *)
+Theorem C14_copy_independent :
+  forall ms o ms1 ops ms2 m,
+    (exists h, o = ECopy h \/ o = ESaveLoad h) ->
+    step ms o = Ok ms1 -> nth_error ms (handle_of o) = Some m -> run ms1 ops = Ok ms2 ->
+    (forallb (fun x => negb (writes_to x (List.length ms))) ops = true -> nth_error ms2 (List.length ms) = Some m)
+    /\ (forallb (fun x => negb (writes_to x (handle_of o))) ops = true -> nth_error ms2 (handle_of o) = Some m).
+Proof. exact copy_independent. Qed.
+Print Assumptions C14_copy_independent.
+
 (** Non-vacuity: a script with creation, a copy, an edit of the copy, a become and a removal; the
     guards hold, both live models end consistent and the original is untouched by the copy's edit. *)
 Definition st0 (o : option value) (op par : bool) (id : name) : sstate :=
@@ -175,6 +233,8 @@ Definition ex_ops : list eop :=
     EAddNode 0 "a"%string (st0 None true true "a"%string) ["_k"%string] None;
     EAddNode 0 "b"%string (st0 None true false "b"%string) ["a"%string] (Some (VConst 7));
     ECopy 0;
+    ESetFlag 1 "a"%string FUsesMeta true;
+    ESetFlag 0 "b"%string FUsesBatchSize true;
     ESetParams 1 ["b"%string];
     EAddNode 0 "c"%string (st0 None true false "c"%string) [] None;
     EBecome 0 "b"%string "c"%string;
@@ -186,9 +246,41 @@ Example C14_example :
                       && names_eqb (parameter_names m0) ["a"%string] && names_eqb (parameter_names m1) ["b"%string]
                       && negb (has "c"%string (s_nodes m0)) && negb (has "_k"%string (s_nodes m1))
                       && has "_k"%string (s_nodes m0)
+                      (* the state write to the copy's [a] is in the copy only *)
+                      && match lookup "a"%string (s_nodes m0) with Some st => negb (s_uses_meta st) | None => false end
      | _ => false
      end = true.
 Proof. vm_compute. split; reflexivity. Qed.
+
+(** Non-vacuity of copy independence: copy, then write to the original only / to the copy only. *)
+Definition ex_base : list eop :=
+  [ EAddNode 0 "a"%string (st0 None true true "a"%string) [] None;
+    EAddNode 0 "b"%string (st0 None true false "b"%string) ["a"%string] (Some (VConst 7)) ].
+Definition ex_on_original : list eop :=
+  [ ESetFlag 0 "b"%string FUsesMeta true; ESetParams 0 ["b"%string]; ESetObserved 0 "b"%string (VConst 9);
+    ERemove 0 "a"%string ].
+Definition ex_on_copy : list eop :=
+  [ ESetFlag 1 "b"%string FUsesMeta true; ESetFlag 1 "a"%string FParameter false; ERemove 1 "b"%string ].
+Example C14_copy_independent_example :
+  match run [empty_net] ex_base with
+  | Ok ms =>
+      match step ms (ECopy 0), nth_error ms 0 with
+      | Ok ms1, Some m =>
+          forallb (fun x => negb (writes_to x 1)) ex_on_original
+          && forallb (fun x => negb (writes_to x 0)) ex_on_copy
+          && match run ms1 ex_on_original with
+             | Ok [m0; m1] => snet_eqb m1 m && negb (snet_eqb m0 m)
+             | _ => false
+             end
+          && match run ms1 ex_on_copy with
+             | Ok [m0; m1] => snet_eqb m0 m && negb (snet_eqb m1 m)
+             | _ => false
+             end
+      | _, _ => false
+      end
+  | Err _ => false
+  end = true.
+Proof. vm_compute. reflexivity. Qed.
 
 (** Non-vacuity for become: [n] has a private constant parent [_k] of its own (cleaned up), a
     private parent [_s] shared with [u] (kept), a named non-private parent [a] (edge dropped), a
